@@ -94,6 +94,15 @@ WITNESSES = {
     "priority": (dict(clients=[[None], [9]], byref=True, logger=True, dispatcher_priority=True),
                  [("block", 2), ("block", 1), ("peer", 1), ("run", 2, "c2"), ("block", 1), ("peer", 2), ("block", 1), ("block", 2)],
                  None),
+    # a result that is a reference to an instance of a USER class: _unbox makes an INSPECT round trip on the dispatching
+    # thread, between the lock hand-off and the publication.  Even in the dispatcher-priority family the waiter gets to
+    # run during that round trip, serves the INSPECT answer itself, re-tests (not ready), takes the lock again and blocks.
+    "userclass-priority": (dict(clients=[[10]], bg=True, byref="user", dispatcher_priority=True),
+                           [("run", 1, "c3"), ("peer", 0), ("run", 2, "c2", 51), ("block", 1), ("peer", 1), ("block", 1),
+                            ("block", 2)], ss.SIG_MAIN),
+    # the receiver is a caller without expiry whose own request is never answered: a serve(None) thread, as serve_all's
+    "serve-none": (dict(clients=[[None], [None]], mute=[2]),
+                   [("block", 2), ("block", 1), ("peer", 1), ("run", 2, "n2"), ("block", 1), ("block", 2)], ss.SIG_MAIN),
     # negative neighbours: the caller receives its own reply; the caller tests readiness after the dispatch
     "self": (dict(clients=[[10]], bg=True), [("run", 1, "c3"), ("peer", 0), ("block", 1)], None),
     "after": (dict(clients=[[10]], bg=True), [("run", 1, "c3"), ("peer", 0), ("run", 2, "d5"), ("block", 1)], None),
@@ -102,7 +111,8 @@ WITNESSES = {
 NEIGHBOURHOODS = [("1c+bg", dict(clients=[[4]], bg=True), 2), ("2c", dict(clients=[[None], [4]], bg=False), 1),
                   ("1c+poller", dict(clients=[[None]], pollers=[[0]]), 2),
                   ("1c+bg-byref-log", dict(clients=[[4]], bg=True, byref=True, logger=True), 1),
-                  ("2c-byref-log-priority", dict(clients=[[None], [4]], byref=True, logger=True, dispatcher_priority=True), 1)]
+                  ("2c-byref-log-priority", dict(clients=[[None], [4]], byref=True, logger=True, dispatcher_priority=True), 1),
+                  ("1c+bg-userclass-priority", dict(clients=[[4]], bg=True, byref="user", dispatcher_priority=True), 1)]
 RANDOM_CONFIGS = {
     "1c+bg": dict(clients=[[6]], bg=True),
     "1c-none+bg": dict(clients=[[None]], bg=True),
@@ -112,6 +122,8 @@ RANDOM_CONFIGS = {
     "2c+poller": dict(clients=[[None], [5]], pollers=[["ready", 0]]),
     "1c+poller+bg": dict(clients=[[6]], pollers=[[1, "ready"]], bg=True),
     "2c+bg-byref-log": dict(clients=[[None], [6]], bg=True, byref=True, logger=True),
+    "2c-userclass-callbacks": dict(clients=[[None], [6]], byref="user", logger=True, callbacks=True),
+    "2c-serve-none": dict(clients=[[8], [None]], mute=[2], callbacks=True),
     "2c+poller-byref-log-priority": dict(clients=[[None], [6]], pollers=[[0, 1]], byref=True, logger=True,
                                          dispatcher_priority=True),
 }
@@ -144,6 +156,10 @@ def feed(c, name, runs, expect=None):
         for st in stalls:
             c.count("stall:" + st["signature"])
             c.count("stall blocked in " + str(st.get("blocked_in")))
+            if st.get("inspect"):
+                c.count("stall with the dispatcher's INSPECT round trip (user-class reference) inside the window")
+            if r.case.get("dispatcher_priority"):
+                c.count("stall inside the dispatcher-priority family:" + st["signature"].split(":")[-1])
             d = None if st.get("t_return") is None else st["t_return"] - st["t_dispatch"]
             c.count("stall delay (virtual units): " + ("forever" if d is None else ("0 (released by other traffic)" if d == 0 else
                                                         "1-3" if d <= 3 else "4-10" if d <= 10 else ">10")))
@@ -248,7 +264,8 @@ def known_probes(ctx):
     """replay the Lean counterexamples' schedules on the real code; one probe per listed signature"""
     env = ss.locate_statements()
     out = []
-    for sig, names in ((ss.SIG_MAIN, ("main", "main-none", "clients", "poller", "byref-log")), (ss.SIG_LATE, ("late", "cond"))):
+    for sig, names in ((ss.SIG_MAIN, ("main", "main-none", "clients", "poller", "byref-log", "userclass-priority", "serve-none")),
+                       (ss.SIG_LATE, ("late", "cond"))):
         texts, rep = [], False
         for name in names:
             try:
@@ -259,7 +276,8 @@ def known_probes(ctx):
             sts = [s for s in ss.stalls_of(r) if s["signature"] == sig]
             if sts:
                 rep = True
-                texts.append("[%s] %s" % (name, describe_stall(sts[0])))
+                texts.append("[%s] %s%s" % (name, describe_stall(sts[0]), " (INSPECT round trip of _unbox inside the window, "
+                                                                           "dispatcher-priority schedule)" if sts[0].get("inspect") else ""))
         text = ("signature=%s F3: serve() notifies and releases the receive lock before dispatching; %s"
                 % (sig, "; ".join(texts) if texts else "does not reproduce"))
         out.append((sig, rep, text))
